@@ -1,8 +1,8 @@
 SPECIFICATION TraceSpec
 CONSTANTS
   LeaseIds = {1, 2, 3}
-  Versions = {1, 2, 3, 4}
-  BadHost = {3}
+  Versions = {1, 2, 3, 4, 5}
+  BadHost = {3, 5}
   BadAlways = {4}
   MaxSubmit = 12
   MaxLeaseWon = 9999
@@ -11,5 +11,6 @@ CONSTANTS
   MaxFetchErr = 9999
   MaxClose = 9999
   MaxDropped = 9999
+  MaxSwallow = 9999
 INVARIANT Done
 CHECK_DEADLOCK FALSE
